@@ -323,7 +323,8 @@ func runSQLite(args []string) {
 	rep.Rule = "scenarios against in-memory SQLite: a table per struct type (integer, text, real, blob, bool, nullable pointers, sql.Null*, embedded, omitempty), rows inserted with a " +
 		"random SQLair insert form (single/bulk []T/[]*T, (*) VALUES, explicit columns with asterisk, explicit columns with members), the same rows inserted with hand-written SQL " +
 		"into a twin table; both tables dumped through plain database/sql and compared; rows read back with &T.* via GetAll and compared with what was inserted; then UPDATE/DELETE " +
-		"with member and slice inputs mirrored by hand-written SQL; non-trivial = at least one row inserted; distinct by hash of type, form and values"
+		"with member and slice inputs mirrored by hand-written SQL; a quarter of the inserts behind a common table expression with inputs of its own, half of the single-row inserts built as Query objects before any is run, " +
+		"rows read back into maps and pointers as well, a cached DELETE issued through a transaction (rolled back or committed); non-trivial = at least one row inserted; distinct by hash of type, form and values"
 	r := rng.New(*seed)
 	dist := map[string]int{}
 	ctx := context.Background()
